@@ -9,6 +9,7 @@ package c04
 import (
 	"bytes"
 	"encoding/json"
+	"flag"
 	"fmt"
 	"math"
 	"os"
@@ -539,8 +540,7 @@ func profiles() []gen.Config {
 	mods2 := heavy
 	mods2.Modules = 2
 	mods2.Failing = true
-	// focus profile of the "builtin-modules" sub-check: small programs, no float constants
-	small := gen.Config{MaxStmts: 6, MaxDepth: 2, MaxFnDepth: 2, MaxBlock: 3, Closures: true, Calls: true, Log: true, Failing: true, Try: true, Modules: 1}
+	small := gen.Config{MaxStmts: 6, MaxDepth: 2, MaxFnDepth: 2, MaxBlock: 3, Closures: true, Calls: true, Log: true, Floats: true, Failing: true, Try: true, Modules: 1}
 	return []gen.Config{base, failing, heavy, mods1, mods2, small}
 }
 
@@ -548,7 +548,7 @@ var mainImportable = []string{"strings", "json", "fmt", "time", "vals"}
 
 // decorate adds the constant-kind statements and builtin-module import stanzas
 // to a generated program (main script and source modules).
-func decorate(rt *rapid.T, gp *gen.GenProgram, cfg gen.Config, withBfn bool) (imports []string) {
+func decorate(rt *rapid.T, gp *gen.GenProgram, cfg gen.Config) (imports []string) {
 	var head, tail []string
 	add := func(s []string) {
 		if rapid.Bool().Draw(rt, "athead") {
@@ -557,17 +557,11 @@ func decorate(rt *rapid.T, gp *gen.GenProgram, cfg gen.Config, withBfn bool) (im
 			tail = append(tail, s...)
 		}
 	}
-	if !withBfn && rapid.IntRange(0, 9).Draw(rt, "withconsts") < 8 {
+	if rapid.IntRange(0, 9).Draw(rt, "withconsts") < 8 {
 		add(constStmts(rt, 5))
 	}
 	pool := mainImportable
-	if withBfn {
-		pool = append(append([]string{}, pool...), "bfn")
-	}
 	nimp := rapid.SampledFrom([]int{0, 0, 1, 1, 1, 2, 3}).Draw(rt, "nimports")
-	if withBfn {
-		nimp = rapid.IntRange(1, 3).Draw(rt, "nimports-focus")
-	}
 	seen := map[string]bool{}
 	var failCands []string
 	for i := 0; i < nimp; i++ {
@@ -607,7 +601,7 @@ func decorate(rt *rapid.T, gp *gen.GenProgram, cfg gen.Config, withBfn bool) (im
 			continue
 		}
 		var ms []string
-		if !withBfn && rapid.Bool().Draw(rt, "modconsts") {
+		if rapid.Bool().Draw(rt, "modconsts") {
 			ms = append(ms, constStmts(rt, 2)...)
 		}
 		if rapid.Bool().Draw(rt, "modimport") {
@@ -643,53 +637,121 @@ func TestCheck(t *testing.T) {
 
 	objectEnum(t, rec)
 	rec.Unfreeze()
-	ev.RapidCheck(t, "objects", ev.N(1500, 30000), 3, func(rt *rapid.T) { objectProp(rt, rec) })
+	ev.RapidCheck(t, "objects", ev.N(3000, 40000), 3, func(rt *rapid.T) { objectProp(rt, rec) })
 	rec.Unfreeze()
 
+	if os.Getenv("VERIF_SHRINKTIME") == "" {
+		// shrinking generated programs is slow; keep a falsified quick run inside its budget
+		st := "6s"
+		if ev.Tier() == "thorough" {
+			st = "25s"
+		}
+		_ = flag.Set("rapid.shrinktime", st)
+	}
 	profs := profiles()
-	progProp := func(withBfn bool, small bool) func(rt *rapid.T) {
-		return func(rt *rapid.T) {
-			var cfg gen.Config
-			if small {
-				cfg = profs[len(profs)-1]
-			} else {
-				cfg = profs[rapid.IntRange(0, len(profs)-1).Draw(rt, "profile")]
-			}
-			gp := gen.Generate(rt, cfg)
-			imports := decorate(rt, gp, cfg, withBfn)
-			p := prog.Prepare(gp)
-			rec.Case()
-			in := input{c: p.Case(), args: p.Args, globals: p.Globals}
-			for _, noopt := range []bool{false, true} {
-				v := judge(in, noopt)
-				switch {
-				case v.harness != "":
-					rt.Fatalf("HARNESS: %s", v.harness)
-				case v.excl != "":
-					rec.Exclude(v.excl)
+	check := func(rt *rapid.T, gp *gen.GenProgram, extra map[string]any) {
+		p := prog.Prepare(gp)
+		rec.Case()
+		in := input{c: p.Case(), args: p.Args, globals: p.Globals}
+		for _, noopt := range []bool{false, true} {
+			v := judge(in, noopt)
+			switch {
+			case v.harness != "":
+				rt.Fatalf("HARNESS: %s", v.harness)
+			case v.excl != "":
+				rec.Exclude(v.excl)
+				continue
+			case v.inconcl != "":
+				rec.Inconcl(v.inconcl)
+				return
+			case v.sig != "":
+				what := describe(v)
+				if rec.Violation(v.sig, what, v.c) {
 					continue
-				case v.inconcl != "":
-					rec.Inconcl(v.inconcl)
-					return
-				case v.sig != "":
-					what := describe(v)
-					if rec.Violation(v.sig, what, v.c) {
-						continue
-					}
-					// the fatal message must be identical on re-execution or rapid stops shrinking
-					// (encoder output and thus error texts depend on map iteration order)
-					rt.Logf("%s", what)
-					rt.Fatalf("C04 violated: %s", v.sig)
 				}
-				classify(rec, v, noopt, p.Src, map[string]any{"imports": imports, "modules": len(p.ModSrc)})
+				// the fatal message must be identical on re-execution or rapid stops shrinking
+				// (encoder output and thus error texts depend on map iteration order)
+				rt.Logf("%s", what)
+				rt.Fatalf("C04 violated: %s", v.sig)
 			}
+			extra["modules"] = len(p.ModSrc)
+			classify(rec, v, noopt, p.Src, extra)
 		}
 	}
 	// the main search
-	ev.RapidCheck(t, "programs", ev.N(1100, 40000), 1, progProp(false, false))
+	ev.RapidCheck(t, "programs", ev.N(3000, 40000), 1, func(rt *rapid.T) {
+		cfg := profs[rapid.IntRange(0, len(profs)-1).Draw(rt, "profile")]
+		gp := gen.Generate(rt, cfg)
+		imports := decorate(rt, gp, cfg)
+		check(rt, gp, map[string]any{"imports": imports})
+	})
 	rec.Unfreeze()
-	// small programs centred on builtin modules (incl. re-exported builtin functions)
-	ev.RapidCheck(t, "builtin-modules", ev.N(300, 8000), 2, progProp(true, true))
+	// small hand-shaped programs centred on builtin modules (incl. re-exported builtin functions)
+	ev.RapidCheck(t, "builtin-modules", ev.N(1000, 12000), 2, func(rt *rapid.T) {
+		gp, imports := modProgram(rt)
+		check(rt, gp, map[string]any{"imports": imports, "shape": "builtin-modules"})
+	})
+}
+
+// modProgram builds a small program around builtin modules: imports in the
+// main script, inside function literals and inside a source module that
+// re-exports module functions; optionally ending in an uncaught error.
+func modProgram(rt *rapid.T) (*gen.GenProgram, []string) {
+	gp := &gen.GenProgram{Features: gen.Features{}, Globals: map[string]gen.Expr{}}
+	gp.Modules = map[string][]gen.Stmt{}
+	all := []string{"strings", "json", "fmt", "time", "vals", "bfn"}
+	var imports, body, fails []string
+	body = append(body, "global L")
+	n := rapid.IntRange(1, 3).Draw(rt, "nimports")
+	seen := map[string]bool{}
+	for i := 0; i < n; i++ {
+		m := rapid.SampledFrom(all).Draw(rt, "import")
+		if seen[m] {
+			continue
+		}
+		seen[m] = true
+		imports = append(imports, m)
+		st := stanzaOf(m)
+		stmts, v := importStmts(rt, st, "z", 4)
+		if rapid.IntRange(0, 3).Draw(rt, "infn") == 0 {
+			// import and uses inside a (variadic) closure
+			body = append(body, "func(...zargs) {\n  "+strings.Join(stmts, "\n  ")+"\n}(1, 2)")
+		} else {
+			body = append(body, stmts...)
+			for _, f := range st.fails {
+				fails = append(fails, fmt.Sprintf(f, v))
+			}
+		}
+	}
+	switch rapid.IntRange(0, 11).Draw(rt, "emptymod") {
+	case 0:
+		// a source module with empty source (file of size 0 in the file set)
+		gp.Modules["e0"] = nil
+		body = append(body, `L(import("e0"))`)
+	case 1:
+		gp.Modules["e1"] = insertStmts(nil, []string{"return"}, true)
+		body = append(body, `L(import("e1"))`)
+	}
+	if rapid.IntRange(0, 2).Draw(rt, "srcmod") == 0 {
+		m := rapid.SampledFrom(all[:5]).Draw(rt, "modimp")
+		stmts, v := importStmts(rt, stanzaOf(m), "zm", 2)
+		ms := append([]string{"global L", `L("load m0")`}, stmts...)
+		ret := fmt.Sprintf("return {f: func(x) { return [x, %s] }, m: %s", v, v)
+		if m == "vals" {
+			ret += fmt.Sprintf(", boom: func() { return %s.fail(\"from m0\") }", v)
+			fails = append(fails, "zm0.boom()")
+		}
+		ms = append(ms, ret+"}")
+		gp.Modules["m0"] = insertStmts(nil, ms, true)
+		body = append(body, `zm0 := import("m0")`, `L(zm0.f(3))`, `L(zm0.m)`)
+		imports = append(imports, "m0:"+m)
+	}
+	if rapid.IntRange(0, 3).Draw(rt, "failtail") == 0 {
+		body = append(body, rapid.SampledFrom(append(append([]string{}, failPool...), fails...)).Draw(rt, "fail"))
+	}
+	body = append(body, "return 1")
+	gp.Body = insertStmts(nil, body, true)
+	return gp, imports
 }
 
 // selfTest makes sure the harness' own additions are valid uGO: a compile or
